@@ -17,6 +17,17 @@ CHECKS = {
          "are enabling conditions of the model.",
     technique="TLA+ reference model, exhaustive TLC graph -> edge-covering replay on real code, TLC trace validation",
     design="4 C10"),
+ "C20": dict(
+    level="model_checking",
+    text="PosReport.tla states the format in exact integer arithmetic (half ten-thousandths of a minute). TLC checks the "
+         "reference algorithm exhaustively on a scaled universe and exhibits the named deviation SplitThenRound (60.0000 "
+         "minutes); real PosReport.Message outputs for a structured input set (grid, half-unit neighbourhoods of every whole "
+         "degree and sampled minutes, float neighbours, random) are parsed and judged by TLC (PosReportTrace.tla): minutes < 60, "
+         "hemisphere, value within half a unit, widths, Validate(); all courses x {T,M}; all 16 optional-field combinations.",
+    note="Trusted: TLC, math/big exact conversion of the float64 input, the regular-expression lexer of the body lines. Inputs are "
+         "sampled (dense around the boundaries), not all float64 values. A slack of 1e-7 minute is allowed at exact rounding ties.",
+    technique="TLA+ arithmetic specification, TLC design check (scaled) + TLC validation of recorded real outputs",
+    design="4 C20"),
 }
 
 NOT_YET = "check not built yet (work in progress; see DESIGN.md section 8 for the build order)"
